@@ -3,7 +3,7 @@ prop(
     quick=[("native", 16)],
     thorough=[("native", 16), ("asan", 8), ("valgrind", 4)],
     level="exploration",
-    min_evals={"quick": 12000, "thorough": 250000},
+    min_evals={"quick": 60000, "thorough": 250000},
     rule=(
         "objects of kind ROA / ASPA / manifest / generic content type are assembled by the harness' own RFC 5652/6488 encoder "
         "(own eContent encoders, signatures straight from aws-lc-rs over 0x31 || DER length || attributes) around EE certificates issued "
@@ -15,8 +15,11 @@ prop(
         "foreign issuer / forged signature / overclaim; evaluation time at notBefore/notAfter and 1 s outside; 16 BER re-encodings; CRL callback Ok / Err; "
         "single-bit flips classified through the harness' DER reader into covered regions (eContent, signedAttrs, signature, sid, digest OIDs, EE TBS, EE signature; rejection asserted) "
         "and uncovered ones (recorded) - thorough enumerates every covered bit of 6 objects. "
+        "eContent shapes from the independent encoder that the library's builders cannot produce: ROAs with an address family zero to three times in any order, empty address lists, repeated prefixes, prefixes inside / just outside / one bit wider than the EE's validated blocks; ASPAs with providers descending, repeated, containing the customer or absent; "
+        "manifests with repeated entries, two hashes for one name, number 0 or 20 octets, thisUpdate = nextUpdate - such an object may be rejected, but if accepted every prefix / the customer written anywhere in the signed content must be covered by the EE certificate's validated resources, and (for every accepted ROA / ASPA / manifest of the whole run) the accessors must report exactly what the harness' own DER reader finds in the signed content. "
+        "Signer identifier shapes: the sid of a valid object of each kind rewritten with 0, 1, 10, 19, 21, 24, 32, 40 octets having the SKI as prefix or suffix, the SKI twice, halves swapped, one bit off - primitive and as constructed OCTET STRING (1xN, halves, 20+rest, rest+20, random split, nested, empty piece, indefinite length), strict and relaxed: all must be rejected; the right 20 octets in constructed form are recorded. "
         "A case signature is (kind, attribute order, signed-attrs size class <128 / 128..255 / >=256, strictness, violated condition or none, coverage relation, BER variant) "
-        "or (flip, kind, region, decoded?); undecodable flips count as rejected. evaluations = library decode+validate runs judged by the oracle."
+        "or (flip, kind, region, decoded?) or (eContent shape, kind, family / member pattern, mode, covered?) or (sid shape, kind, octets, encoding, mode); undecodable flips count as rejected. evaluations = library decode+validate runs judged by the oracle."
     ),
     assumptions=[
         "keys are RSA-2048 from a cached pool; digest SHA-256; EE certificates come from the library's own builder (their validation is C01's subject)",
@@ -27,10 +30,10 @@ prop(
     ],
     level_text=(
         "Runtime oracle: the conjunction in the statement is evaluated from the parameters the harness chose for each object it assembled itself, and compared with the library's accept / reject. "
-        "Quick runs about 12 000 objects and 12 000 classified bit flips (native) plus a small ASan stage; thorough about 400 000 objects with a larger random share (ROA / ASPA placements, sizes), "
+        "Quick runs about 60 000 objects, 40 000 classified bit flips, 16 000 eContent shapes and 1 100 signer-identifier shapes (native); thorough about 400 000 objects with a larger random share (ROA / ASPA placements, sizes), "
         "every covered bit of six objects (about 90 000 flips), an ASan stage of 12 000 objects + 16 000 flips and valgrind memcheck on 80 objects + 1 600 tampered decodes (hostile bytes into aws-lc). Sampling with boundary-dense tables is the reachable level for a property quantified over all contents, sizes and tamper points."
     ),
     level_note="Trusts the harness' 1 000-line CMS/X.509 writer and aws-lc-rs as signing/digest oracle; explores a structured sample, not all objects.",
-    technique="runtime oracle over independently encoded CMS objects + single-point tampering + classified bit flips; ASan; valgrind memcheck",
+    technique="runtime oracle over independently encoded CMS objects (incl. eContent and signer-identifier shapes no builder produces, reported content compared with an independent reader) + single-point tampering + classified bit flips; ASan; valgrind memcheck",
     design_ref="DESIGN.md §4 C02",
 )
